@@ -31,6 +31,9 @@ def run(ctx):
     ctx.run_rule("X4", r_xof.rule_X4, std)
     ctx.run_rule("X5", r_xof.rule_X5, allc)
     ctx.run_rule("D2x", r_xof.rule_D2x, allc)
+    import r_flags
+    ctx.run_rule("Fs", r_flags.rule_F_sinks, allc)   # the root block is compressed with ROOT and the reader's counter at every XOF sink
+    ctx.run_rule("F6", r_flags.rule_F6, allc)
     import r_asm
     ctx.run_rule("A9", lambda c: r_asm.rule_A9(c, only="xof_many"))
     import r_round
